@@ -231,6 +231,14 @@ func one(run *vk.Run, cfg string, st *stores.Opened, offs []ebu.Offset, batch, L
 				if nerr := bus.Replay(ctx, offs[start], func(*ebu.StoredEvent) error { cnt++; return nil }); nerr != nil || cnt != S {
 					nestedBad = fmt.Sprintf("nested Replay from inside the callback returned %v after %d of %d events", nerr, cnt, S)
 				}
+				// and one over a different range (from the event being handled): the outer replay's own
+				// view of the log must not be disturbed by it
+				cnt = 0
+				if strings.HasPrefix(cfg, "durable") {
+					// (per-event offsets of the durable-streams store cannot be resumed from: recorded finding)
+				} else if nerr := bus.Replay(ctx, e.Offset, func(*ebu.StoredEvent) error { cnt++; return nil }); nerr != nil || cnt != S-n {
+					nestedBad = fmt.Sprintf("nested Replay from the offset of the event being handled returned %v after %d of %d events", nerr, cnt, S-n)
+				}
 				nested = false
 			}
 		}
